@@ -1985,7 +1985,7 @@ void SoPlexBase<R>::_solveRealForRationalStable(
       if(primalFeasible && dualFeasible)
       {
          SPX_MSG_INFO1(spxout, spxout << "Tolerances reached.\n");
-         return;
+         break;   // not return: the objective value of the accepted solution is computed behind the loop
       }
 
 
@@ -2926,7 +2926,7 @@ void SoPlexBase<R>::_solveRealForRationalBoostedStable(
       if(primalFeasible && dualFeasible)
       {
          SPX_MSG_INFO1(spxout, spxout << "Tolerances reached.\n");
-         return;
+         break;   // not return: the objective value of the accepted solution is computed behind the loop
       }
 
       // terminate if some limit is reached
